@@ -55,8 +55,14 @@ def write_package(case):
         os.mkdir(os.path.join(pkg, "assets"))
         with open(os.path.join(pkg, "assets", "deep.py"), "w") as f:
             f.write("raise RuntimeError('module of a sub-directory imported')\n")
+    if case.get("external") and case["modules"]:
+        # a mode class that lives in a library module outside the package and is imported by one package module
+        with open(os.path.join(root, f"{name}_lib.py"), "w") as f:
+            f.write("from vf.labs import selector_reg as R\n" + CLASS_SRC.format(cls="Cls_ext", cid="ext", attrs="    MODE_NAME = 'From library'", fail=False))
     for mi, m in enumerate(case["modules"]):
         src = ["from vf.labs import selector_reg as R", f"R.IMPORTED.append({mi})"]
+        if mi == 0 and case.get("external"):
+            src.append(f"from {name}_lib import Cls_ext")
         for ci, c in enumerate(m["classes"]):
             attrs = []
             if c["kind"] == "mode":
@@ -135,6 +141,7 @@ def decode(code):
             ops.append(["periodic", ADV[a]])
     case["ops"] = ops
     case["clutter"] = pkg_c in (3, 4, 10)
+    case["external"] = pkg_c in (5, 6)
     return case
 
 
@@ -195,6 +202,8 @@ class C14(Lab):
                         # classes of a module whose import fails never become visible
                         if not m.get("fail_import"):
                             qualifying.append((f"{mi}_{ci}", c["name"], c))
+            if case.get("external") and case["modules"] and case["pkg"] != "missing" and not case["modules"][0].get("fail_import"):
+                qualifying.append(("ext", "From library", {"kind": "mode", "name": "From library"}))
             healthy = [q for q in qualifying if not q[2].get("ctor_fail")]
             ctor_fail = any(q[2].get("ctor_fail") for q in qualifying)
             names = [q[1] for q in healthy]
@@ -363,7 +372,7 @@ class C14(Lab):
             while root in sys.path:
                 sys.path.remove(root)
             shutil.rmtree(root, ignore_errors=True)
-            for k in [k for k in sys.modules if k == pkgname or k.startswith(pkgname + ".")]:
+            for k in [k for k in sys.modules if k == pkgname or k.startswith(pkgname + ".") or k == pkgname + "_lib"]:
                 del sys.modules[k]
             sel = None
             e_ = locals().get("err")
